@@ -15,7 +15,14 @@ import (
 // C15 — altering a table keeps the stored values of every field it retains.
 
 type c15Case struct {
+	// Start: events run before the enumerated ones (a non-initial start state; checked like the rest)
+	Start  []int `json:"start,omitempty"`
 	Events []int `json:"events"` // 0..3 Ins(point), 4 Flush, 5 Restart, 6+i Alter(layout i)
+}
+
+// start states: empty; two keys on disk; two keys in memory; two keys on disk with the new field already added
+func c15Starts() [][]int {
+	return [][]int{nil, {0, 2, 4}, {0, 2}, {0, 2, 4, 6 + 7}}
 }
 
 func c15Pool() map[string]rm.Field {
@@ -101,6 +108,9 @@ type c15Accepted struct {
 }
 
 func c15Run(c *fw.Ctx, cs c15Case, checkAlways bool) {
+	if len(cs.Start) > 0 {
+		cs = c15Case{Events: append(append([]int{}, cs.Start...), cs.Events...)}
+	}
 	layouts := c15Layouts()
 	points := c15Points()
 	cur := layouts[0]
@@ -228,14 +238,29 @@ func c15Run(c *fw.Ctx, cs c15Case, checkAlways bool) {
 			}
 			for k, gv := range got {
 				if _, ok := exp[k]; !ok {
-					constrained := false
+					constrained, anyReadded := false, false
 					for _, f := range fields {
 						if !readded[f] {
 							constrained = true
+						} else {
+							anyReadded = true
 						}
 					}
-					if constrained {
+					if constrained && !anyReadded {
 						diffs = append(diffs, fmt.Sprintf("unexpected row %s %v", k, gv))
+					} else if constrained {
+						// a removed-and-re-added field (about which the property says nothing) may
+						// account for the row's existence; the constrained fields must be empty in it
+						for _, f := range fields {
+							if readded[f] {
+								continue
+							}
+							for j, rf := range res.Fields {
+								if rf == f && gv[j] != 0 {
+									diffs = append(diffs, fmt.Sprintf("row %s field %s = %v, want it empty (no point processed while the field was present)", k, f, gv[j]))
+								}
+							}
+						}
 					}
 				}
 			}
@@ -317,9 +342,9 @@ func c15Run(c *fw.Ctx, cs c15Case, checkAlways bool) {
 func init() {
 	nEvents := 6 + len(c15Layouts())
 	fw.Register(&fw.Prop{
-		ID:    "C15",
-		Level: "model_checking",
-		Rule: "all event sequences of the bound over {4 inserts (two keys, colliding periods, with/without the value a new field aggregates, two WHERE classes), Flush, Restart, ApplySchema(l) for 15 layouts: base [a SUM, av AVG, p50 PERCENTILE, mx MAX], rotations, every single deletion, every insertion position of a new AVG field, delete+insert, two WHERE variants} with at most 2 (quick) / 2 (thorough, longer) alters; after every event on every distinct state: SELECT *, every single field and a reversed two-field subset must equal a model that tracks, per field, the points processed while it was continuously present (re-added fields unconstrained); non-trivial = sequence with an alter after at least one insert",
+		ID:          "C15",
+		Level:       "model_checking",
+		Rule:        "all event sequences of the bound over {4 inserts (two keys, colliding periods, with/without the value a new field aggregates, two WHERE classes), Flush, Restart, ApplySchema(l) for 15 layouts: base [a SUM, av AVG, p50 PERCENTILE, mx MAX], rotations, every single deletion, every insertion position of a new AVG field, delete+insert, two WHERE variants} with at most 2 alters, started from the empty table and from three non-initial states (two keys on disk, two keys in memory, two keys on disk with the new field added); after every event on every distinct state: SELECT *, every single field and a reversed two-field subset must equal a model that tracks, per field, the points processed while it was continuously present (re-added fields unconstrained); non-trivial = sequence with an alter after at least one insert",
 		Assumptions: []string{"'processed before/after' is made exact by quiescing before each alter and waiting for the row store to take the field update", "PERCENTILE(…,50,0,10,0) over integer points is recomputed independently"},
 		Shards:      func(tier string) int { return 16 },
 		Budget: func(tier string) time.Duration {
@@ -335,45 +360,47 @@ func init() {
 			}
 			total := ipow(nEvents, n)
 			var idx int64
-			for i := int64(0); i < total; i++ {
-				ev := seqFromIndex(i, nEvents, n)
-				alters, insBefore, nontrivial := 0, false, false
-				for _, e := range ev {
-					if e >= 6 {
-						alters++
-						if insBefore {
-							nontrivial = true
+			for _, start := range c15Starts() {
+				for i := int64(0); i < total; i++ {
+					ev := seqFromIndex(i, nEvents, n)
+					alters, insBefore, nontrivial := 0, len(start) > 0, false
+					for _, e := range ev {
+						if e >= 6 {
+							alters++
+							if insBefore {
+								nontrivial = true
+							}
+						}
+						if e < 4 {
+							insBefore = true
 						}
 					}
-					if e < 4 {
-						insBefore = true
+					if alters > 2 {
+						continue
 					}
-				}
-				if alters > 2 {
-					continue
-				}
-				idx++
-				if !c.Mine(idx) {
-					continue
-				}
-				if c.Expired() {
-					c.Incomplete("time budget used up")
-					return
-				}
-				cs := c15Case{Events: ev}
-				c.Eval(1)
-				c.Trace(1)
-				if nontrivial {
-					c.Nontrivial(fmt.Sprint(ev))
-					var names []string
-					for _, e := range ev {
-						names = append(names, c15EventName(e))
+					idx++
+					if !c.Mine(idx) {
+						continue
 					}
-					c.Sample("alter-after-insert", names)
+					if c.Expired() {
+						c.Incomplete("time budget used up")
+						return
+					}
+					cs := c15Case{Start: start, Events: ev}
+					c.Eval(1)
+					c.Trace(1)
+					if nontrivial {
+						c.Nontrivial(fmt.Sprint(start, ev))
+						var names []string
+						for _, e := range ev {
+							names = append(names, c15EventName(e))
+						}
+						c.Sample("alter-after-insert", names)
+					}
+					c15Run(c, cs, false)
 				}
-				c15Run(c, cs, false)
 			}
-			c.R.Bound = fmt.Sprintf("all sequences of length %d over %d events with <= 2 alters", n, nEvents)
+			c.R.Bound = fmt.Sprintf("all sequences of length %d over %d events with <= 2 alters, from each of %d start states (empty; two keys flushed; two keys in memory; two keys flushed and the new field added)", n, nEvents, len(c15Starts()))
 		},
 		Replay: func(c *fw.Ctx, raw json.RawMessage) {
 			var cs c15Case
